@@ -1,4 +1,5 @@
 import RemocModel.Base.Wiring
+import RemocModel.Base.WiringForward
 
 /-!
 # C05 — channel halves embedded in values are wired one-to-one to their counterparts
@@ -330,3 +331,67 @@ example : (connRun {} [.batchSent, .rejectNoPorts, .deliverResponse]).stay = .er
     connStep (connRun {} [.batchSent, .rejectNoPorts, .deliverResponse]) .deliverResponse = none := by decide
 
 end Remoc.Wiring
+
+/-! ### the forwarding hop as performed by the forwarder model (`chmux::forward`, `Received::Requests`) -/
+
+namespace Remoc.Link
+
+/-- **Requests are forwarded with their ids, in order, and request `k` follows connect `k`.**  In every
+reachable state of the forwarder model (as coded), for every forwarded batch with received ids `i_1..i_n`:
+the port requests passed to the downstream `connect` carry exactly these ids in this order, on pairwise distinct
+fresh ports; one task per request was spawned, and the `k`-th task owns request `k` and awaits connect `k`.
+For every spawned task: the connect it awaits carries the id of the request it owns, and the task accepts its
+request only if *that* connect was accepted, and rejects it — with `no_ports` as classified — only if *that*
+connect failed.  While a `connect` is in progress its argument carries the received ids. -/
+theorem forward_requests_paired (ca cb : Cfg) (f : Fwd) (h : FReachable .asCoded ca cb f) :
+    (∀ B ∈ f.batches,
+      B.ports.map (·.id) = B.ids ∧ (B.ports.map (·.port)).Nodup ∧ B.pairs.length = B.ids.length ∧
+      ∀ (k : Nat) (t : PairTask), B.pairs[k]? = some t → t.upIdx = k ∧ B.ids[k]? = some t.upId ∧ B.ports[k]? = some t.out) ∧
+    (∀ t ∈ f.tasks, t.out.id = t.upId ∧ TaskOk t) ∧
+    f.tasks.map PairTask.key = (f.batches.flatMap (·.pairs)).map PairTask.key ∧
+    (∀ ids ports, f.ph = .connect ids ports → ports.map (·.id) = ids) := by
+  have hp := fport_reachable .asCoded ca cb f h
+  have hB : ∀ B ∈ f.batches, B.pairs = pairFrom 0 B.ids B.ports := fun B hBm => (hp.batches B hBm).pairs
+  refine ⟨?_, ?_, hp.tasksKeys, hp.connIds⟩
+  · intro B hBm
+    obtain ⟨hids, hnd, _, _⟩ := hp.batches B hBm
+    have hlen : B.ports.length = B.ids.length := by rw [← hids]; simp
+    refine ⟨hids, hnd, by rw [hB B hBm, pairFrom_length]; omega, ?_⟩
+    intro k t hk
+    rw [hB B hBm] at hk
+    obtain ⟨h1, h2, h3, _⟩ := pairFrom_get 0 B.ids B.ports k t hk
+    exact ⟨by omega, h2, h3⟩
+  · intro t ht
+    refine ⟨?_, hp.tasksOk t ht⟩
+    have hk : t.key ∈ (f.batches.flatMap (·.pairs)).map PairTask.key := by
+      rw [← hp.tasksKeys]; exact List.mem_map.mpr ⟨t, ht, rfl⟩
+    obtain ⟨t0, ht0, hkey⟩ := List.mem_map.mp hk
+    obtain ⟨B, hBm, ht0B⟩ := List.mem_flatMap.mp ht0
+    rw [hB B hBm] at ht0B
+    have := pairFrom_id 0 B.ids B.ports (hp.batches B hBm).ids t0 ht0B
+    simp only [PairTask.key, Prod.mk.injEq] at hkey
+    rw [← hkey.2.1, ← hkey.2.2]; exact this
+
+/-- non-vacuity, and seeded bug (a): a batch of two requests with ids 10 and 20 is forwarded on the fresh ports
+5 and 6.  As coded, the task of request 10 awaits the connect that carries id 10; with the reversed pairing
+(`reqs.zip(connects.rev())`) it awaits the connect that carries id 20 — `forward_requests_paired` fails for the
+mutated pairing, kernel-checked. -/
+def portsCfg : Cfg := { chunk := 16, limit := 16, maxData := 64, maxPorts := 8 }
+def portsRun : List FLabel :=
+  [.up (.startConnect [10, 20]), .up .request, .up .emit, .up .muxRecv, .recvAny,
+   .alloc 5, .alloc 6, .connect, .down .request, .emit,
+   .connResp 0 .accepted, .connResp 1 (.failed true), .acceptDone 0 true]
+
+example : (frun .asCoded portsCfg portsCfg (finit portsCfg portsCfg) portsRun).tasks =
+      [{ upIdx := 0, upId := 10, out := ⟨5, 10⟩, resp := some .accepted, st := .piped },
+       { upIdx := 1, upId := 20, out := ⟨6, 20⟩, resp := some (.failed true), st := .rejected true }] ∧
+    (frun .asCoded portsCfg portsCfg (finit portsCfg portsCfg) portsRun).b.emitted = [.ports [10, 20] true true] ∧
+    (frun .asCoded portsCfg portsCfg (finit portsCfg portsCfg) portsRun).ph = .idle := by decide
+
+example : (frun .reversed portsCfg portsCfg (finit portsCfg portsCfg) portsRun).tasks =
+      [{ upIdx := 0, upId := 10, out := ⟨6, 20⟩, resp := some .accepted, st := .piped },
+       { upIdx := 1, upId := 20, out := ⟨5, 10⟩, resp := some (.failed true), st := .rejected true }] ∧
+    ¬ (∀ t ∈ (frun .reversed portsCfg portsCfg (finit portsCfg portsCfg) portsRun).tasks, t.out.id = t.upId) := by
+  decide
+
+end Remoc.Link
